@@ -47,7 +47,7 @@ ASSUMPTIONS = ["shape membership of the state's position (contains_point) is com
                "trajectories containing such states are outside the quantifier: correspondence with the model only, no oracle verdict",
                "a goal state that does not pass GoalRegion's validation (exact int time step, attributes other than the four) is "
                "rejected at construction and outside the quantifier; it appears only as a failing operation inside histories"]
-EXTRA_MODULES = ['CRProps.T16']      # translator tie: Gen.Src (regenerated from /repo every run) = hand model
+EXTRA_MODULES = ['CRProps.T16', 'CRProps.T08']      # translator tie: Gen.Src (regenerated from /repo every run) = hand model
 REQUIRED_BUCKETS = ["state/PMState", "state/KSState", "state/KSTState", "state/STState", "state/STDState", "state/MBState",
                     "state/ExtendedPMState", "state/InitialState", "state/CustomState", "state/LongitudinalState",
                     "state/LateralState", "state/InputState", "state/PMInputState", "state/LKSInputState",
@@ -1515,12 +1515,8 @@ def upgrade(case):
 def run_case(ctx, case):
     ctx.case(case)
     case = upgrade(case)
-    try:
-        W = FileWorld(case, ctx.tmpdir()) if case.get("kind") == "file" else World(case)
-    except Exception as e:  # noqa  constructing (writing, reading) an admissible goal must not fail
-        site = "file-round-trip" if case.get("kind") == "file" else "GoalRegion.__init__"
-        ctx.fail(f"C08/{site}/raises-{type(e).__name__}", f"{e}", dict(case, steps=[]))
-        return
+    # the goal buckets are those of the GENERATED goal: tagged before construction, so that a constructor which rejects an
+    # admissible goal (a reported failure) does not also look like a generator that lost coverage
     goals = case["goals"]
     ctx.tag("file/" + case["fmt"] if case.get("kind") == "file" else "lan/" + case.get("lan_mode", "auto"))
     if len(goals) > 1:
@@ -1531,6 +1527,12 @@ def run_case(ctx, case):
         tag_goal(ctx, g)
         if "alias_of" in g:
             ctx.tag("goal/aliased-shape")
+    try:
+        W = FileWorld(case, ctx.tmpdir()) if case.get("kind") == "file" else World(case)
+    except Exception as e:  # noqa  constructing (writing, reading) an admissible goal must not fail
+        site = "file-round-trip" if case.get("kind") == "file" else "GoalRegion.__init__"
+        ctx.fail(f"C08/{site}/raises-{type(e).__name__}", f"{e}", dict(case, steps=[]))
+        return
     for k, step in enumerate(case["steps"]):
         sub = dict(case, steps=case["steps"][:k + 1])
         op = step["op"]
